@@ -147,6 +147,11 @@ def pairs : List Int → List (Int × Int)
   | a :: b :: r => (a, b) :: pairs r
   | _ => []
 
+/-- consecutive writes of `vs` at word offsets `pos, pos + stride, …` (the loops of `weaken`). -/
+def Mem.wrSeq (m : Mem) (pos stride : Nat) : List Int → Mem
+  | [] => m
+  | v :: vs => (m.wr pos v).wrSeq (pos + stride) stride vs
+
 /-- `weaken(to, resetWeights)`; `to ∈ {0 = Normal, 2 = Count}` (other values: only the type is changed). -/
 def RB.weaken (r : RB) (to : Nat) (w : Bool) : Option RB :=
   if r.body.type == 0 || r.body.type == to then some r else
@@ -154,14 +159,14 @@ def RB.weaken (r : RB) (to : Nat) (w : Bool) : Option RB :=
   if to == 0 then
     let i := r.body.mbeg - 1
     -- `new (mem_[i]) Lit_t(bIt->lit)` for every weight literal, compacting in place
-    let m1 := (wl.zipIdx).foldl (fun (acc : Mem) (p : (Int × Int) × Nat) => acc.wr (i + p.2) p.1.1) r.mem
+    let m1 := r.mem.wrSeq i 1 (wl.map (·.1))
     let mend := i + wl.length
     some { r with mem := m1, body := { mbeg := i, mend := mend, type := 0 }, top := max r.head.mend mend }
   else if to == 2 && w && !wl.isEmpty then
     let bnd := r.rd r.boundPos
     let mn := wl.foldl (fun m p => if m > p.2 then p.2 else m) (wl.headD (0, 0)).2
     -- every weight := 1
-    let m1 := (wl.zipIdx).foldl (fun (acc : Mem) (p : (Int × Int) × Nat) => acc.wr (r.body.mbeg + 2 * p.2 + 1) 1) r.mem
+    let m1 := r.mem.wrSeq (r.body.mbeg + 1) 2 (wl.map (fun _ => 1))
     -- setBound((Weight_t)(((int64)bnd + ((int64)min - 1)) / min)): 64-bit arithmetic (repaired, D9), truncating division
     if r.fix then none else
     if mn == 0 then none else
